@@ -95,27 +95,36 @@ def removed (F : Facts) (g : VGraph) (cutoff : Int) (p : Nat) : Bool :=
 /-! ### the order in which the chosen version objects are deleted (F93)
 
 The next vacuum finds the history by walking back from the current version through `parents`.
-`supersededFirst` is the depth-first walk of the source: a version is emitted after the chosen
-versions it supersedes.  Fuel bounds the depth (a version graph has no cycles: names are hashes). -/
+`visitFirst` is the depth-first walk of the source (`supersededFirst`): a version is emitted after
+the chosen versions it supersedes.  The emitted list is kept newest first (`acc`), so that the
+invariant below is structural; `deletionOrder` reverses it.  Fuel bounds the depth (a version
+graph has no cycles: names are hashes of contents that include the parents' names). -/
 
-/-- visit `v`: first the chosen parents not yet emitted, then `v` itself; `acc` = emitted so far -/
+/-- visit `v`: first the chosen parents not yet emitted, then `v` itself; `acc` = emitted so far,
+    newest first -/
 def visitFirst (g : VGraph) (chosen : List Nat) : Nat → List Nat → Nat → List Nat
-  | 0, acc, v => if acc.contains v then acc else acc ++ [v]
+  | 0, acc, v => if acc.contains v then acc else v :: acc
   | fuel + 1, acc, v =>
     if acc.contains v then acc
     else
       let acc' := ((g.parents v).filter chosen.contains).foldl (visitFirst g chosen fuel) acc
-      if acc'.contains v then acc' else acc' ++ [v]
+      if acc'.contains v then acc' else v :: acc'
 
 /-- the deletion order for the chosen versions; with the fact off, the order they came in (a Go
     map's: any) -/
 def deletionOrder (F : Facts) (g : VGraph) (chosen : List Nat) : List Nat :=
-  if F.vacuumDeletesSupersededFirst then chosen.foldl (visitFirst g chosen g.versions.length) [] else chosen
+  if F.vacuumDeletesSupersededFirst then (chosen.foldl (visitFirst g chosen g.versions.length) []).reverse else chosen
 
-/-- what makes an order safe to be interrupted in: at every point of the deletion loop the set of
-    version objects already deleted is closed under "supersedes" (among the chosen ones) -/
+/-- a list of emitted versions, newest first, in which every version comes after (is consed onto)
+    the chosen versions it supersedes -/
+def Good (g : VGraph) (chosen : List Nat) : List Nat → Prop
+  | [] => True
+  | c :: older => (∀ p, p ∈ g.parents c → p ∈ chosen → p ∈ older) ∧ Good g chosen older
+
+/-- what makes an order safe to be interrupted in: wherever the deletion loop stops, the version
+    objects already deleted are closed under "supersedes" (among the chosen ones) -/
 def PrefixClosed (g : VGraph) (chosen order : List Nat) : Prop :=
-  ∀ k c, c ∈ order.take k → ∀ p, p ∈ g.parents c → p ∈ chosen → p ∈ order.take k
+  ∀ done todo, order = done ++ todo → ∀ c, c ∈ done → ∀ p, p ∈ g.parents c → p ∈ chosen → p ∈ done
 
 /-- a walk back through the history: each version is followed by one it supersedes -/
 def Walk (g : VGraph) : List Nat → Prop
